@@ -9,7 +9,7 @@ from harness.worker import Stream
 from harness.props.c04 import compare_factor
 
 OBLIGATIONS = [
-    "PgmVerif.C14_each_factor_once", "PgmVerif.C14_moral_covers_family", "PgmVerif.C14_bn_to_mn_measure",
+    "PgmVerif.C14_each_factor_once", "PgmVerif.C14_moral_covers_family", "PgmVerif.C14_moral_only_family", "PgmVerif.C14_bn_to_mn_measure",
     "PgmVerif.C14_elimination_is_perfect", "PgmVerif.C14_filled_graph_chordal",
 ]
 PARTIAL = ["every elimination order is proved to be a perfect elimination ordering of the graph it fills in (C14_elimination_is_perfect) and that "
